@@ -859,7 +859,7 @@ func (p *Printer) cmdSubst(cs *CmdSubst) {
 		p.wantSpace = spaceNotRequired
 		p.semiRsrv("}", cs.Right)
 	// Special case: `# inline comment`
-	case cs.Backquotes && len(cs.Stmts) == 0 &&
+	case !p.minify && cs.Backquotes && len(cs.Stmts) == 0 &&
 		len(cs.Last) == 1 && cs.Right.Line() == p.line:
 		p.w.WriteString("`#")
 		p.w.WriteString(cs.Last[0].Text)
